@@ -288,8 +288,8 @@ ADDED10 = {
  "C05": " Wave 9: R-REPKIND, R-ENUMFULL, R-EOLNL also for rows in a separate if, R-REPCAP (nested group loops around a capture are not merged).",
  "C06": " Wave 9: R-REPKIND, R-SPACEARGS, R-OFFTABLE (ReadRune sizes are used).",
  "C08": " Wave 9: R-OFFTABLE (ReadRune sizes are used).",
- "C09": " Wave 9: R-ROOMLTR (room-to-the-right tests only for left-to-right searches), R-COUNTDEC (the remaining-match count only counts down).",
- "C10": " Wave 9: R-CRAWLGUARD.",
+ "C09": " Wave 9: R-ROOMLTR (room-to-the-right tests only for left-to-right searches), R-COUNTDEC (the remaining-match count only counts down), R-REPLMASK.",
+ "C10": " Wave 9: R-CRAWLGUARD, R-REPLMASK (no node of a replacement literal carries IgnoreCase: addToConcatenate evaluated for literal lengths 0-3).",
  "C11": " Wave 9: R-FRESHRE (no package-level variable can hold a *Regexp).",
  "C12": " Wave 9: R-RESETALL, R-CRAWLGUARD (a push onto the crawl stack makes room for itself), R-TAKEALL.",
  "C13": " Wave 9: R-TRACKGROW (the backtracking stack grows only through the limit-aware routine), R-CRAWLGUARD, R-TAKEALL (nothing of the old receiver survives UnmarshalText).",
